@@ -201,6 +201,15 @@ func runC06(r *Run) {
 			c01ReturnedLeaf(r, fn)
 		}
 	})
+
+	// the entry a client derives from certificate + SCT is the entry that was logged (rule set of C01.R7),
+	// and an accepted submission's chain is retrievable (rule set of C14.R5)
+	r.Shared("C06.R8", func() {
+		r.Rule("C01.R7")
+		c01Leaf(r)
+		r.Rule("C14.R5")
+		c14ChainStore(r)
+	})
 }
 
 func c06Forwarding(r *Run) {
